@@ -13,6 +13,7 @@ import (
 	"os"
 	"regexp"
 	"sort"
+	"strconv"
 	"strings"
 	"testing"
 	"time"
@@ -82,8 +83,8 @@ func TestCheck(t *testing.T) {
 	r := kit.Start(t, "C11")
 	defer r.Finish()
 	r.Rule("case = one independent key generation ceremony (engine frost|pedersen|fullrun, n, t, v, repeat) run by the REAL charon code on n nodes with fresh PRNG secp256k1 identities over fakenet; " +
-		"every envelope is held and released by a PRNG scheduler in one of 10 orders (eager random/LIFO, settled batches shuffled/reversed, laggard sender/receiver, strict class/receiver/sender priority, targeted re-delivery), nothing dropped; " +
-		"3/4 of the ceremonies additionally see byte-identical RE-DELIVERIES of one-way reliable-broadcast messages (immediately / after a later-round message of the same sender / late / mixed); the targeted mode keeps laggard C's round-1 broadcast from receiver B until a faster sender A had a later-round message handled by B and A's round-1 broadcast was delivered to B again; " +
+		"every envelope is held and released by a PRNG scheduler in one of 11 orders (eager random/LIFO, settled batches shuffled/reversed, laggard sender/receiver, strict class/receiver/sender priority, targeted re-delivery, targeted concurrent duplicates), nothing dropped; " +
+		"3/4 of the ceremonies additionally see byte-identical RE-DELIVERIES of one-way reliable-broadcast messages (immediately / after a later-round message of the same sender / late / mixed / concurrently: original and 1-3 copies handled by the receiver in overlapping handler goroutines); every fourth case sees every message exactly once; the targeted mode keeps laggard C's round-1 broadcast from receiver B until a faster sender A had a later-round message handled by B and A's round-1 broadcast was delivered to B again; " +
 		"non-trivial = the ceremony succeeded on all n nodes and at least one envelope was delivered before an envelope sent earlier; distinct = hash of (engine,n,t,v, sequence of (from,to,message class) deliveries)")
 	r.Assume("herumi (tbls) group arithmetic is correct: the oracle evaluates RecoverPubkey/RecoverSecret/ThresholdAggregate/Verify of the production tbls package on the ceremony outputs (C08 checks tbls itself)")
 	r.Assume("kryptology FROST and drand/kyber pedersen draw their polynomial coefficients from crypto/rand: key material is not replayable from the seed, the schedule mode, identities and configuration are")
@@ -124,6 +125,7 @@ func TestCheck(t *testing.T) {
 	}
 	r.Require("redeliveries", int64(n))
 	r.Require("targeted_redelivery_patterns", int64(n/20))
+	r.Require("concurrent_duplicate_pairs", int64(2*n))
 	reg := &keyRegistry{seen: map[tbls.PublicKey]string{}}
 	par := 6
 	r.Set("grid_size", len(list))
@@ -220,19 +222,28 @@ func runFakenetCeremony(c *kit.Case, cer ceremony, reg *keyRegistry, logs *faken
 	rng.Read(session)
 	// Schedule mode: the targeted re-delivery pattern gets a fixed share (it needs a specific
 	// three-party order that the generic modes only hit by chance), the rest is uniform.
-	mode := rng.Intn(numModes - 1)
-	if share := map[string]int{engFrost: 30, engPedersen: 15}[cer.Engine]; rng.Intn(100) < share {
-		mode = modeRedeliverTargeted
-	}
-	// Re-delivery overlay: 1/4 of the ceremonies see every message exactly once.
+	// Every fourth case (by index; the list is shuffled) sees every message exactly once in one of
+	// the 9 pure reordering modes: the only ceremonies for which a failure to complete is a violation.
+	// The others: the two targeted duplicate patterns get fixed shares (they need a specific
+	// three-party situation the generic modes only hit by chance), the rest is uniform, plus one of
+	// the re-delivery profiles (immediate / after-later-round / late / mixed / concurrent).
+	mode := rng.Intn(numModes - 2)
 	dupProfile := dupNone
-	if rng.Intn(4) != 0 {
+	if c.Idx%4 != 0 {
+		seq := map[string]int{engFrost: 20, engPedersen: 10}[cer.Engine]
+		conc := map[string]int{engFrost: 35, engPedersen: 10}[cer.Engine]
+		switch x := rng.Intn(100); {
+		case x < seq:
+			mode = modeRedeliverTargeted
+		case x < seq+conc:
+			mode = modeConcurrentTargeted
+		}
 		dupProfile = 1 + rng.Intn(numDupProfiles-1)
 	}
 	// Per-receiver budget: the pedersen board queues node pubkeys in a channel of capacity n that
 	// nobody drains after the collection, so fewer than n repeats per receiver keep its handler
 	// from blocking; FROST filters repeats before queueing.
-	dupBudget := 3 * n
+	dupBudget := 6 * n
 	if cer.Engine == engPedersen {
 		dupBudget = n - 1
 	}
@@ -243,6 +254,12 @@ func runFakenetCeremony(c *kit.Case, cer ceremony, reg *keyRegistry, logs *faken
 		patience = time.Duration(1+rng.Intn(8)) * time.Millisecond
 	}
 	sc := newSched(m.net, m.ids, r.Rand(c.Idx, 1), mode, patience, dupProfile, dupBudget, dupAll)
+	if cer.Engine == engFrost {
+		sc.burst = 4
+		if v, err := strconv.Atoi(os.Getenv("C11_BURST")); err == nil && v > 0 { // development aid
+			sc.burst = v
+		}
+	}
 	logStart := logs.Len()
 
 	ctx, cancel := context.WithCancel(context.Background())
@@ -492,7 +509,16 @@ wait:
 	if st.RedelivTotal > 0 {
 		r.Count("ceremonies_with_redelivery", 1)
 	}
+	r.Count("concurrent_duplicate_groups", int64(st.ConcGroups))
+	r.Count("concurrent_duplicate_pairs", int64(st.ConcPairs))
+	r.Count("concurrent_duplicate_pairs_"+cer.Engine, int64(st.ConcPairs))
+	if st.ConcPairs > 0 {
+		r.Count("ceremonies_with_concurrent_duplicates", 1)
+	}
 	r.Count("targeted_redelivery_patterns", int64(st.TgtCompleted))
+	if st.TgtCompleted > 0 {
+		r.Count("targeted_patterns_"+st.Mode, int64(st.TgtCompleted))
+	}
 	r.Count("targeted_redelivery_patterns_"+cer.Engine, int64(st.TgtCompleted))
 	r.Count("targeted_redelivery_abandoned", int64(st.TgtAbandoned))
 	if st.TgtAbandoned > 0 {
